@@ -190,6 +190,7 @@ def run(ck):
         foreign_records_layer(ck, 16 if q else 160, lines, meta)
         big_vlr_block_layer(ck, lines, meta)
         late_points_layer(ck, 6 if q else 60, lines, meta)
+        shrinking_vlr_append_layer(ck, 6 if q else 60, lines, meta)
     except TooManyHangs:
         ck.count("exploration_stopped_after_hangs")
     finish(ck, lines, meta)
@@ -217,6 +218,11 @@ def explore(ck, q, n_sessions, lines, meta):
                 evlrs = fio.rand_vlrs(ck.rng, True, 2)
             ck.count("append_over_evlrs")
         vl = fio.rand_vlrs(ck.rng, False, 1)
+        if si == 0:
+            # whatever the seed: the first session is a one-shot write of a small LAS 1.4 cloud with an EVLR (the points reach the destination between
+            # the header and the EVLRs; every one of its few writes is torn in turn further down)
+            minor, fmt, n = 4, 6, 3
+            evlrs = [("verif", 9, "after the points", bytes(range(40)))]
         las = fio.make_las(ck.rng, minor, fmt, n, vlrs=vl, evlrs=evlrs, scales=[0.01, 0.5, 1.0], offsets=[0.0, -100.0, 7.5])
         size = las.header.point_format.size
         intended = las.points.array.tobytes()
@@ -315,6 +321,12 @@ def explore(ck, q, n_sessions, lines, meta):
             plan = [(fa, ck.rng.choice([0.0, 0.4, 0.99]), ck.rng.random() < 0.5)
                     for fa in sorted({0, len(rec.log) - 1, ck.rng.randrange(len(rec.log)), ck.rng.randrange(len(rec.log))})]
             plan += [(biggest, 0.4, True), (biggest, 0.99, False)]
+            if len(rec.log) <= 6:
+                # short write streams (one-shot writes, small sessions): every write in turn is the one that is torn
+                plan += [(i_, 0.4, False) for i_ in range(len(rec.log))]
+            if kind == "chunked" and len(rec.log) >= 4:
+                # whatever the seed: the FIRST write of point records of a session that has more chunks to write
+                plan += [(1, 0.4, False), (1, 0.0, True)]
             for fail_at, frac, on_disk in plan:
                 if on_disk:
                     import os
@@ -332,6 +344,9 @@ def explore(ck, q, n_sessions, lines, meta):
                 except Exception as e:
                     outcome = type(e).__name__
                 ck.count("failed_write_then_cleanup:" + outcome + (":file" if on_disk else ":memory"))
+                if outcome == "completed" and dest.calls > fail_at:
+                    ck.fail(f"{kind} session whose write #{fail_at} raised OSError went on as if nothing had happened (the caller never learns that the write failed)",
+                            dict(inp0, what="failed-write-not-reported", failing_write=fail_at, stored_fraction=frac))
                 if on_disk:
                     try:
                         dest.close()
@@ -462,6 +477,33 @@ def late_points_layer(ck, n_cases, lines, meta):
         ck.count("late_points_outcome:" + outcome)
         check_image(ck, dest.getvalue(), las.points.array.tobytes(), size, inp,
                     f"writer session: 3 points, EVLRs, then 2 more points ({outcome}), closed", lines, meta)
+
+
+def shrinking_vlr_append_layer(ck, n_cases, lines, meta):
+    """append sessions on files with a WKT record whose payload is padded with several NULs: parsed and written again it is shorter, so the appender's
+    header no longer has the size it has in the file. Whether the session refuses to rewrite the header or not, what it leaves reads as a prefix of
+    old followed by new points - never records taken from a shifted position"""
+    import laspy
+    for ci in range(n_cases):
+        minor, fmt = fio.PAIRS[(5 * ci + 2) % len(fio.PAIRS)]
+        vl = [("verif", 3, "before", b"abc"), ("LASF_Projection", 2112, "padded WKT", b'GEOGCS["verif"]' + b"\0" * [5, 2, 9][ci % 3])]
+        las = fio.make_las(ck.rng, minor, fmt, [3, 0, 260][ci % 3], vlrs=vl, scales=[0.01, 0.5, 1.0], offsets=[0.0, -100.0, 7.5])
+        size = las.header.point_format.size
+        b0 = io.BytesIO()
+        las.write(b0)
+        extra = fio.raw_records(ck.rng, size, 2)
+        dest = io.BytesIO(b0.getvalue())
+        outcome = "closed"
+        try:
+            with laspy.open(dest, mode="a", closefd=False) as ap:
+                ap.append_points(c06.rec_of(las, extra))
+        except Exception as e:
+            outcome = type(e).__name__
+        inp = {"what": "append-over-shrinking-vlr", "minor": minor, "fmt": fmt, "n0": len(las.points), "session_outcome": outcome}
+        ck.case(("shrinking_vlr", minor, fmt, ci % 3, las.points.array.tobytes(), extra), nontrivial=True)
+        ck.count("append_on_file_with_a_shrinking_vlr:" + outcome)
+        check_image(ck, dest.getvalue(), las.points.array.tobytes() + extra, size, inp,
+                    f"append session ({outcome}) on a file whose VLR block is shorter when written again", lines, meta)
 
 
 def finish(ck, lines, meta):
